@@ -241,6 +241,17 @@ def roundtrip_item(item):
                     out["discharged"] += 1
                 else:
                     out["violations"].append(_rt_violation(n, mask, ctx.model_values(), "subseq_from_mask"))
+                # the caller owns the returned list: editing it must not change what the next equal call returns
+                out["obligations"] += 1
+                back.reverse()
+                back.append(None)
+                again = SS.subseq_from_mask(mask, elems)
+                ok = len(again) == len(sub) and all(
+                    (a is b) or (a is not None and ctx.prove(ctx.z(a) == ctx.z(b)) is None) for a, b in zip(again, sub))
+                if ok:
+                    out["discharged"] += 1
+                else:
+                    out["violations"].append(_rt_violation(n, mask, ctx.model_values(), "subseq_from_mask after the caller edited an earlier result"))
                 if len(out["violations"]) > 2:
                     break
     except Inconclusive as e:
@@ -253,15 +264,42 @@ def roundtrip_item(item):
     return out
 
 
-def _rt_concrete(n, mask, vals):
-    seq = [vals[f"e{i}"] for i in range(n)]
+def _rt_concrete(n, mask, vals, seq=None):
+    seq = [vals[f"e{i}"] for i in range(n)] if seq is None else list(seq)
     sub = [seq[i] for i in range(n) if mask >> i & 1]
     fails = []
     if SS.mask_from_subseq(sub, seq) != mask:
         fails.append(f"mask_from_subseq({sub}, {seq}) = {SS.mask_from_subseq(sub, seq)} != {mask}")
-    if SS.subseq_from_mask(mask, seq) != sub:
-        fails.append(f"subseq_from_mask({mask}, {seq}) = {SS.subseq_from_mask(mask, seq)} != {sub}")
+    first = SS.subseq_from_mask(mask, seq)
+    if first != sub:
+        fails.append(f"subseq_from_mask({mask}, {seq}) = {first} != {sub}")
+    else:
+        first.reverse()
+        first.append(None)
+        again = SS.subseq_from_mask(mask, seq)
+        if again != sub:
+            fails.append(f"subseq_from_mask({mask}, {seq}) = {again} != {sub} after the caller edited the list returned by an earlier equal call")
     return fails
+
+
+def roundtrip_concrete_item(item):
+    """Concrete companion of the symbolic round trip (plain enumeration, reported as such): element kinds the affine encoding cannot
+    carry (strings, tuples) and code paths that hash their arguments."""
+    n = item["n"]
+    out = dict(obligations=0, discharged=0, violations=[], item=item, paths=1, solver_queries=0, solver_s=0.0, nontrivial=n >= 2)
+    for kind, seq in (("int", [10 * i + 3 for i in range(n)]), ("str", [f"f{n - i}" for i in range(n)]), ("tuple", [(i, "x") for i in range(n)])):
+        for mask in range(1 << n):
+            out["obligations"] += 3
+            cf = _rt_concrete(n, mask, None, seq)
+            if cf:
+                out["violations"].append({"kind": "roundtrip", "text": f"concrete {kind} elements, n={n} mask={bin(mask)}: {cf}",
+                                          "signature": {"kind": "roundtrip-concrete", "elements": kind, "n": n, "mask": mask},
+                                          "data": {"fn": "roundtrip-concrete", "n": n, "mask": mask, "seq": seq}, "confirmed": True})
+                if len(out["violations"]) > 2:
+                    return out
+            else:
+                out["discharged"] += 3
+    return out
 
 
 def _rt_violation(n, mask, model, which):
@@ -277,6 +315,8 @@ def worker(item):
         return dist_item(item)
     if item["kind"] == "complete":
         return complete_item(item)
+    if item["kind"] == "roundtrip-concrete":
+        return roundtrip_concrete_item(item)
     return roundtrip_item(item)
 
 
@@ -288,7 +328,10 @@ def replay(data):
         return real != exp
     if data["fn"] == "complete":
         return SS.subseq_complete([0] * data["len"]) != (1 << data["len"]) - 1
-    cf = _rt_concrete(data["n"], data["mask"], data["values"])
+    if data["fn"] == "roundtrip-concrete":
+        cf = _rt_concrete(data["n"], data["mask"], None, [tuple(x) if isinstance(x, list) else x for x in data["seq"]])
+    else:
+        cf = _rt_concrete(data["n"], data["mask"], data["values"])
     for t in cf:
         print("  reproduced:", t)
     return bool(cf)
@@ -307,13 +350,16 @@ def main(argv=None):
     items += [{"kind": "roundtrip", "n": n} for n in range(0, nmax + 1)]
     res, sk = R.run_sharded(worker, items, 3500)
     rep.add_results("all", res, sk, exhaustive=True)
+    res, sk = R.run_sharded(worker, [{"kind": "roundtrip-concrete", "n": n} for n in range(0, nmax + 2)], 600)
+    rep.add_results("round trips on concrete int / str / tuple elements (plain enumeration, companion of the symbolic round trip)", res, sk, exhaustive=True)
     rep.extra["cvc5_crosscheck"] = [r.get("cvc5") for r in res if r.get("cvc5")]
     rep.extra["translator_validation_inputs"] = sum(r.get("translator_validation_inputs", 0) for r in res)
     rep.functions = R.source_digest(SS.subseq_segment_dist, SS.subseq_complete, SS.mask_from_subseq, SS.subseq_from_mask)
     rep.bounds = {"subseq_segment_dist": f"all (child, parent, edges) with child != 0 and both masks below 2^N for N in {Ns} "
                                          f"(one equivalence query per N; bit-vector width N+6, loop unrolled N times, unwinding assertion proven)",
                   "subseq_complete": "sequence length 0..40 as a symbolic bit-vector",
-                  "round trips": f"sequence length 0..{nmax}, elements = symbolic pairwise-distinct integers, every mask"}
+                  "round trips": f"sequence length 0..{nmax}, elements = symbolic pairwise-distinct integers, every mask; each subseq_from_mask result is edited by the "
+                                 f"caller and the call repeated (the result must not be shared); concrete companion with int/str/tuple elements up to length {nmax + 1}"}
     rep.assumptions = ["Python ints are modelled by bit-vectors of width N+6; the side query 'result in [-1,N]' and the loop bound N exclude wrap-around",
                        "engine/py2smt.py translation (validated on the repository's test vectors and 200 seeded inputs per N against the real function)"]
     rep.outside = ["masks of more than max(N) bits", "child == 0 (outside the property's quantifier)", "sequences with repeated elements"]
